@@ -120,4 +120,15 @@ theorem expr_unimplemented_fails (env : Env) (args : E) (input : List FP.Model.V
 
 end Expr
 
+/-- `join` is a function of the experimental table only: against the base table Compile rejects the call whatever its
+    arguments are; with the experimental entries added it is accepted with no or one argument and with no other count -/
+theorem join_needs_the_experimental_table (as : FP.Model.Syntax.Ex) (vr : Bool) :
+    FP.Model.Eval.compile FP.Gen.FuncTable.baseTable (.call "join" as) vr = .error := by
+  have : lookup FP.Gen.FuncTable.baseTable "join" = none := by decide +kernel
+  simp [FP.Model.Eval.compile, this]
+
+theorem join_in_the_experimental_table :
+    (lookup (withExperimental FP.Gen.FuncTable.baseTable) "join").map (fun e => (e.impl, e.min, e.max)) = some ("impl.Join", 0, 1) := by
+  decide +kernel
+
 end FP.Props.C16
